@@ -655,6 +655,42 @@ def kernel_solutions(ctx, cases, fn='solution_of'):
     return reps
 
 
+def solution_slice(ctx, progs, keep=None):
+    """the report of the returned solutions (tasks, resources, buffers, indicators, horizon) of `progs`, real library vs model
+    (build_solution + clean_buffer_levels of Solution.v); keep: predicate on report lines (which part of the report matters)
+    -> (stats, breaks [(program index, solution index, (only_impl, only_model))])"""
+    results = common.pmap(observe, [(i, p, ctx.seed, ctx.tier, None, ctx.work) for i, p in enumerate(progs)])
+    cases, where = [], []
+    stats = collections.Counter()
+    for res in results:
+        stats['status_' + str(res['status'])] += 1
+        if res['error']:
+            stats['harness_error'] += 1
+        for k, s in enumerate(res['sols']):
+            cases.append((progs[res['idx']], s['ivals'], s['bvals'], res.get('delta'), res.get('t0')))
+            where.append((res['idx'], k))
+    reports = []
+    SH = 150
+    for si in range(0, len(cases), SH):
+        ctx2 = collections.namedtuple('C', 'work')(os.path.join(ctx.work, 'slice%d' % si))
+        reports += model_solutions(ctx2, cases[si:si + SH], 'solution_of')
+    breaks = []
+    for (idx, k), rep in zip(where, reports):
+        s = results[idx]['sols'][k]
+        a, b = canon(s['report']), canon(rep)
+        if keep is not None:
+            a, b = [x for x in a if keep(x)], [x for x in b if keep(x)]
+        stats['solutions'] += 1
+        if a == b:
+            stats['reports_agree'] += 1
+        else:
+            breaks.append((idx, k, ([x for x in a if x not in b][:3], [x for x in b if x not in a][:3])))
+        for kind, detail in s['clauses']:
+            if kind == 'solution_changed_by_its_own_exports':
+                breaks.append((idx, k, ([kind + ': ' + detail], [])))
+    return dict(stats), breaks
+
+
 def run(ctx, replay=None):
     cfg = CONFIG[ctx.prop]
     quick = ctx.tier == 'quick'
